@@ -1081,3 +1081,35 @@ def maybe_unbound(cfg: CFG, fn: FunctionInfo) -> T.List[T.Tuple[str, int]]:
                         continue
                     found.append((x.id, n.id))
     return sorted(set(found))
+
+
+def config_version_validated_rule(ctx: T.Any, rule: str) -> None:
+    """The config loader refuses a current_version that its version_pattern does not read in full:
+    `_validate_version_with_pattern` is called on every load, parses the version with the pattern's engine, and its
+    PatternError handler ends in a raise (never falls through)."""
+    from .pathcond import PathCond
+    prog = ctx.prog
+    vf = prog.function("config._validate_version_with_pattern")
+    pc_fn = prog.function("config._parse_config")
+    ctx.visit(vf.fq, pc_fn.fq)
+    calls = find_calls(prog, pc_fn, vf.fq)
+    ctx.require(len(calls) == 1, "_parse_config: expected one _validate_version_with_pattern call")
+    g = ctx.cfgs.get(pc_fn.fq)
+    nid = g.node_containing(calls[0])
+    wo = g.reachable(blocked_nodes=[nid])
+    rets = [n for n in g.nodes if n.kind == "stmt" and isinstance(n.ast, ast.Return) and n.id in g.reachable()]
+    ctx.check(rule, all(n.id not in wo for n in rets), "_parse_config: every Config is returned after _validate_version_with_pattern ran",
+              "config._parse_config: a configuration is accepted without validating current_version against version_pattern", "", loc=pc_fn.loc(calls[0]))
+    vcfg = ctx.cfgs.get(vf.fq)
+    hs = handlers_catching(vcfg, ["PatternError"])
+    ctx.floor(rule, "PatternError handlers in _validate_version_with_pattern", len(hs), 1)
+    for h in hs:
+        oc = handler_outcome(vcfg, h)["outcomes"]
+        ctx.check(rule, "raise" in oc and "fallthrough" not in oc, "_validate_version_with_pattern: a current_version the pattern does not read ends in ValueError",
+                  "config._validate_version_with_pattern: an invalid current_version is accepted",
+                  f"the PatternError handler ends in {sorted(oc)}: e.g. current_version = 1.2.3.4 with MAJOR.MINOR.PATCH is loaded, and an update rewrites only the part the pattern matches "
+                  "(`1.2.4.4`)", loc=vf.loc(vcfg.nodes[h].ast), witness={"current_version": "1.2.3.4", "version_pattern": "MAJOR.MINOR.PATCH"})
+    for eng in ("v2version", "v1version"):
+        cs = find_calls(prog, vf, f"{eng}.parse_version_info")
+        ctx.check(rule, len(cs) == 1 and [unparse(a) for a in cs[0].args] == vf.params[:2], f"_validate_version_with_pattern: {eng}.parse_version_info(current_version, version_pattern)",
+                  "config._validate_version_with_pattern: current_version is not parsed with the configured pattern", f"{[unparse(c) for c in cs]}", loc=vf.loc())
